@@ -36,7 +36,7 @@ import (
 
 var opts = &syntax.FileOptions{Set: true, While: true, TopLevelControl: true, GlobalReassign: true, Recursion: true}
 
-var reasons = []string{"too many steps", "r1", "r2", "r3", "r4", "watchdog", ""}
+var reasons = []string{"too many steps", "r1", "r2", "r3 quota 100% used %s %d%%", "r4", "watchdog", ""} // reasons are data, not printf formats
 
 const watchdogReason = 5
 const emptyReason = 6 // thread.Cancel(""): a reason like any other
@@ -432,7 +432,9 @@ func oracleFresh(s shape, n uint64, plan map[int][]op, o obs, idx []uint64) stri
 	return ""
 }
 
-var depthProgs = []string{"def f(n):\n    d()\n    return f(n + 1)\nf(0)\n", "def f(n):\n    d()\n    return g(n)\ndef g(n):\n    return [f(n + 1) for _ in range(1)]\nf(0)\n"}
+var depthProgs = []string{"def f(n):\n    d()\n    return f(n + 1)\nf(0)\n", "def f(n):\n    d()\n    return g(n)\ndef g(n):\n    return [f(n + 1) for _ in range(1)]\nf(0)\n",
+	// the recursion passes through a built-in call-back at every level (frames entered by starlark.Call from host code)
+	"def f(n):\n    d()\n    return max([n + 1], key=f)\nf(0)\n"}
 
 type depthOut struct {
 	Res      string `json:"res"`
@@ -625,7 +627,7 @@ func main() {
 	for di, dc := range []struct {
 		prog   int
 		budget uint64
-	}{{0, 1100000}, {0, 0}, {1, 1500000}} {
+	}{{0, 1100000}, {2, 1500000}, {0, 0}, {1, 1500000}, {2, 0}} {
 		if di >= *ndepth {
 			break
 		}
